@@ -343,6 +343,7 @@ func (p *CFListChannelMaskPayload) UnmarshalBinary(uplink bool, data []byte) err
 
 	var chMaskNil ChMask
 	var pending []ChMask
+	p.ChannelMasks = nil
 
 	for i := 0; i < len(data)/2; i++ {
 		var cm ChMask
